@@ -176,8 +176,8 @@ def sym_toeplitz_derivative_quadratic_form(left_vectors, right_vectors):
     for i=1..m is the matrix with ones on the ith sub- and superdiagonal.
 
     Args:
-        - left_vectors (vector m or matrix s x m) - s left vectors u[j] in the quadratic form.
-        - right_vectors (vector m or matrix s x m) - s right vectors v[j] in the quadratic form.
+        - left_vectors (vector m or matrix (...) x m x s) - s left vectors u[j] in the quadratic form.
+        - right_vectors (vector m or matrix (...) x m x s) - s right vectors v[j] in the quadratic form.
     Returns:
         - vector m - a vector so that the ith element is the result of \sum_j(u[j]*(dT/dc_i)*v[j])
     """
